@@ -67,6 +67,22 @@ theorem C33_shutdown_step (cfg : Cfg) (s s' : St) (hr : (ts Shape.extracted cfg)
     next => cases hst
   next => cases hst
 
+/-- the start-up grace is never shorter than `idle_timeout` -/
+theorem graceOf_ge (q idle : Nat) : idle ≤ graceOf q idle := Nat.le_max_left _ _
+
+/-- **the worker lease** (the abstraction of a worker used by the launcher model): with the start-up grace of the source,
+`max(idle_timeout, floor)`, an idle stop happens no earlier than `idle_timeout` after the last accept / finish — before
+as well as after the first connection -/
+theorem C33_worker_lease (q i : Nat) (mc : Option Nat) (s s' : St)
+    (hr : (ts Shape.extracted ⟨some i, graceOf q i, mc⟩).Reachable s)
+    (hst : step Shape.extracted ⟨some i, graceOf q i, mc⟩ s (.check true) = some s') :
+    s.mon.last + i ≤ s.now ∧ s.mon.openConns = [] := by
+  obtain ⟨_, _, hopen, _, hb, _, _⟩ := C33_shutdown_step _ s s' hr hst
+  refine ⟨?_, hopen⟩
+  have hg := graceOf_ge q i
+  simp only [idleOf, Option.getD_some, Spec.need] at hb
+  split at hb <;> omega
+
 /-- the only way into the idle-stop state is the shutdown test of the accept-timeout branch -/
 theorem C33_stop_only_by_check (sh : Shape) (cfg : Cfg) (s s' : St) (l : Label)
     (hst : step sh cfg s l = some s') (hs' : s'.lpc = .exiting true) (hs : s.lpc ≠ .exiting true) :
